@@ -118,7 +118,7 @@ func body() {
 	}
 	if enabled("d") {
 		wg.Add(1)
-		go func() { defer wg.Done(); runFaults() }()
+		go func() { defer wg.Done(); runFaults(); runRejoin() }()
 	}
 	wg.Wait()
 	raceReports()
